@@ -18,9 +18,9 @@ open SnowModel.Output
 /-- **Conservation at close.**  If all writes and `close()` succeeded, then for *every* table the
     database holds exactly the rows written to it, in order, when the table is in `table_info`,
     and nothing otherwise — whatever the row count, the thresholds and the interleaving. -/
-theorem flush_only_known_tables {ρ : Type} (count0 fl cl : Nat) (bad : ρ → Bool) (known : List String)
-    (ws : List (String × ρ)) (hn : ∀ w ∈ ws, w.1 ≠ "") (s : Db ρ)
-    (h : runDb count0 fl cl bad known ws = .closed s) :
+theorem flush_only_known_tables {ρ : Type} (pre : Bool) (count0 fl cl : Nat) (bad : ρ → Bool)
+    (known : List String) (ws : List (String × ρ)) (hn : ∀ w ∈ ws, w.1 ≠ "") (s : Db ρ)
+    (h : runDb pre count0 fl cl bad known ws = .closed s) :
     ∀ T, s.committed T = (if known.contains T then rowsOf T ws else [])
        ∧ s.buffered T = (if known.contains T then [] else rowsOf T ws) := by
   unfold runDb at h
@@ -30,44 +30,48 @@ theorem flush_only_known_tables {ρ : Type} (count0 fl cl : Nat) (bad : ρ → B
     split at h
     · cases h
     · rename_i s1 e1
-      cases h
-      have c0 : Proofs.C08.Conserve s0 known ([] ++ ws) :=
-        (Proofs.C08.conserve_writeAll ws _ s0 [] (Proofs.C08.conserve_init count0 known) e0).1
-      rw [List.nil_append] at c0
-      by_cases hne : ws = []
-      · subst hne
-        have c1 := (Proofs.C08.conserve_commit c0 e1).1
-        intro T
-        by_cases hT : known.contains T = true
-        · have := c1.kn T hT
-          rw [Proofs.C08.rowsOf_nil, List.append_eq_nil_iff] at this
-          simp only [hT, if_true, Proofs.C08.rowsOf_nil]
-          exact this
-        · have hT' : known.contains T = false := by simpa using hT
-          simp only [hT', Bool.false_eq_true, if_false]
-          exact c1.unk T hT'
-      · rw [Proofs.C08.commit_eq_flush c0 hne hn] at e1
-        obtain ⟨c1, hb, _⟩ := Proofs.C08.conserve_flush c0 e1
-        intro T
-        by_cases hT : known.contains T = true
-        · have := c1.kn T hT
-          rw [hb T hT, List.append_nil] at this
-          simp only [hT, if_true]
-          exact ⟨this, hb T hT⟩
-        · have hT' : known.contains T = false := by simpa using hT
-          simp only [hT', Bool.false_eq_true, if_false]
-          exact c1.unk T hT'
+      split at h
+      · cases h
+      · rename_i s2 e2
+        cases h
+        have c00 : Proofs.C08.Conserve s0 known ([] ++ ws) :=
+          (Proofs.C08.conserve_writeAll ws _ s0 [] (Proofs.C08.conserve_init count0 known) e0).1
+        rw [List.nil_append] at c00
+        have c0 := (Proofs.C08.conserve_preCommit c00 e1).1
+        by_cases hne : ws = []
+        · subst hne
+          have c1 := (Proofs.C08.conserve_commit c0 e2).1
+          intro T
+          by_cases hT : known.contains T = true
+          · have := c1.kn T hT
+            rw [Proofs.C08.rowsOf_nil, List.append_eq_nil_iff] at this
+            simp only [hT, if_true, Proofs.C08.rowsOf_nil]
+            exact this
+          · have hT' : known.contains T = false := by simpa using hT
+            simp only [hT', Bool.false_eq_true, if_false]
+            exact c1.unk T hT'
+        · rw [Proofs.C08.commit_eq_flush c0 hne hn] at e2
+          obtain ⟨c1, hb, _⟩ := Proofs.C08.conserve_flush c0 e2
+          intro T
+          by_cases hT : known.contains T = true
+          · have := c1.kn T hT
+            rw [hb T hT, List.append_nil] at this
+            simp only [hT, if_true]
+            exact ⟨this, hb T hT⟩
+          · have hT' : known.contains T = false := by simpa using hT
+            simp only [hT', Bool.false_eq_true, if_false]
+            exact c1.unk T hT'
 
 /-- **`buffer_lossless`.**  When every written table is in `table_info` (discharged by
     `schema_covers_rows` + the fact that `table_info` has one entry per inferred table) a run whose
     `close()` succeeded committed, for every table, exactly the rows written, in order, and the
     buffer is empty — for any number of rows, in particular across the flush and commit thresholds. -/
-theorem closed_lossless {ρ : Type} (count0 fl cl : Nat) (bad : ρ → Bool) (known : List String)
+theorem closed_lossless {ρ : Type} (pre : Bool) (count0 fl cl : Nat) (bad : ρ → Bool) (known : List String)
     (ws : List (String × ρ)) (hk : ∀ w ∈ ws, w.1 ∈ known) (hn : ∀ w ∈ ws, w.1 ≠ "") (s : Db ρ)
-    (h : runDb count0 fl cl bad known ws = .closed s) :
+    (h : runDb pre count0 fl cl bad known ws = .closed s) :
     ∀ T, s.committed T = rowsOf T ws ∧ s.buffered T = [] := by
   intro T
-  have := flush_only_known_tables count0 fl cl bad known ws hn s h T
+  have := flush_only_known_tables pre count0 fl cl bad known ws hn s h T
   by_cases hT : known.contains T = true
   · simp only [hT, if_true] at this
     exact this
@@ -83,21 +87,23 @@ theorem closed_lossless {ρ : Type} (count0 fl cl : Nat) (bad : ρ → Bool) (kn
     rw [hempty]; rw [hempty] at this; exact this
 
 /-- Rows sqlite can bind are never refused: the run closes and (by `closed_lossless`) nothing is lost. -/
-theorem buffer_lossless {ρ : Type} (count0 fl cl : Nat) (bad : ρ → Bool) (known : List String)
+theorem buffer_lossless {ρ : Type} (pre : Bool) (count0 fl cl : Nat) (bad : ρ → Bool) (known : List String)
     (ws : List (String × ρ)) (hk : ∀ w ∈ ws, w.1 ∈ known) (hn : ∀ w ∈ ws, w.1 ≠ "")
     (hg : ∀ w ∈ ws, bad w.2 = false) :
-    ∃ s, runDb count0 fl cl bad known ws = .closed s ∧ s.count = count0 + ws.length
+    ∃ s, runDb pre count0 fl cl bad known ws = .closed s ∧ s.count = count0 + ws.length
       ∧ ∀ T, s.committed T = rowsOf T ws ∧ s.buffered T = [] := by
   have c00 := Proofs.C08.conserve_init (ρ := ρ) count0 known
   obtain ⟨s0, e0⟩ := Proofs.C08.writeAll_ok_of_good (fl := fl) (cl := cl) (bad := bad) ws _ [] c00
     (by simpa using hg)
   have c0' := Proofs.C08.conserve_writeAll ws _ s0 [] c00 e0
   have c0 : Proofs.C08.Conserve s0 known ws := by simpa using c0'.1
-  obtain ⟨s1, e1⟩ := Proofs.C08.commit_ok_of_good (bad := bad) c0 hg
-  have hrun : runDb count0 fl cl bad known ws = .closed s1 := by
-    simp only [runDb, e0, e1]
-  refine ⟨s1, hrun, ?_, closed_lossless count0 fl cl bad known ws hk hn s1 hrun⟩
-  rw [(Proofs.C08.conserve_commit c0 e1).2, c0'.2]; rfl
+  obtain ⟨s1, e1⟩ := Proofs.C08.preCommit_ok_of_good (pre := pre) (bad := bad) c0 hg
+  have c1 := Proofs.C08.conserve_preCommit c0 e1
+  obtain ⟨s2, e2⟩ := Proofs.C08.commit_ok_of_good (bad := bad) c1.1 hg
+  have hrun : runDb pre count0 fl cl bad known ws = .closed s2 := by
+    simp only [runDb, e0, e1, e2]
+  refine ⟨s2, hrun, ?_, closed_lossless pre count0 fl cl bad known ws hk hn s2 hrun⟩
+  rw [(Proofs.C08.conserve_commit c1.1 e2).2, c1.2, c0'.2]; rfl
 
 /-- **The flush threshold is really used** (this is where the pinned test
     `count % flush_limit == 0` enters): a `write_row` issued when the counter is a multiple of the
@@ -123,42 +129,81 @@ theorem conservation_during_run {ρ : Type} (count0 fl cl : Nat) (bad : ρ → B
 
 /-! ### R — "a run that reports success has lost nothing" -/
 
-/- FULL STATEMENT (false on the pinned commit, finding D15):
-   theorem close_reports (… ws …) (hk …) (hn …) :
-     reportsSuccess Gen.Api.closeSwallows (runDb 1 1000 10000 bad known ws) = true →
-     ∀ s, (runDb …).db? = some s → ∀ T, s.committed T = rowsOf T ws
-   `configure_output_stream` catches the exception of `close()`, echoes it and goes on, so a failing
-   final flush is reported as success. -/
-
-/-- the row predicate of the witness: the field value does not fit a signed 64-bit integer -/
+/-- the row predicate of the witnesses: the field value does not fit a signed 64-bit integer -/
 def tooBig (i : Int) : Bool := !int64 i
 
-/-- **D15 witness.**  One row with the field value `2**70` written to a sqlite `--dburl`:
-    no threshold is reached, `close()` raises `OverflowError`, the handler swallows it
-    (`swallow = true`, pinned from `api.py`), the run reports success and table `A` is empty. -/
-theorem close_reports_refuted :
+/-- **`close()` of the database stream cannot fail any more** (fix 043066e): `generate` has
+    committed before, so when `close()` runs either the schema buffers are empty or there was
+    nothing to flush — for every write sequence and every row predicate. -/
+theorem close_never_fails {ρ : Type} (count0 fl cl : Nat) (bad : ρ → Bool) (known : List String)
+    (ws : List (String × ρ)) (s : Db ρ) : runDb true count0 fl cl bad known ws ≠ .closeFailed s := by
+  intro h
+  unfold runDb at h
+  split at h
+  · cases h
+  · split at h
+    · cases h
+    · rename_i s1 e1
+      split at h
+      · rename_i e2
+        simp only [Db.preCommit, if_true] at e1
+        obtain ⟨s2, e2'⟩ := Proofs.C08.commit_after_commit e1
+        rw [e2'] at e2
+        cases e2
+      · cases h
+
+/-- **`close_reports` — a run that reports success has lost nothing** (full strength since fix
+    043066e; refuted before it — D15).  For every write sequence to tables of the schema, every pair
+    of thresholds, every row predicate (unbindable rows included) and *whatever the handler around
+    `close()` does* (`swallow` arbitrary — it still swallows): if the run reports success then the
+    database holds, for every table, exactly the rows written, in order, and the buffer is empty. -/
+theorem close_reports {ρ : Type} (swallow : Bool) (count0 fl cl : Nat) (bad : ρ → Bool)
+    (known : List String) (ws : List (String × ρ)) (hk : ∀ w ∈ ws, w.1 ∈ known)
+    (hn : ∀ w ∈ ws, w.1 ≠ "")
+    (h : reportsSuccess swallow (runDb true count0 fl cl bad known ws) = true) :
+    ∃ s, runDb true count0 fl cl bad known ws = .closed s
+      ∧ ∀ T, s.committed T = rowsOf T ws ∧ s.buffered T = [] := by
+  cases hr : runDb true count0 fl cl bad known ws with
+  | writeFailed => rw [hr] at h; cases h
+  | commitFailed => rw [hr] at h; cases h
+  | closeFailed s => exact absurd hr (close_never_fails count0 fl cl bad known ws s)
+  | closed s => exact ⟨s, rfl, closed_lossless true count0 fl cl bad known ws hk hn s hr⟩
+
+/-- An unbindable row in the final batch now *fails* the run (the D15 input: one row with `2**70`,
+    thresholds 1000 / 10000): outcome `commitFailed`, not reported as success. -/
+theorem final_batch_error_is_reported :
+    runDb true 1 1000 10000 tooBig ["A"] [("A", (1180591620717411303424 : Int))] = .commitFailed
+    ∧ reportsSuccess true (runDb true 1 1000 10000 tooBig ["A"] [("A", (1180591620717411303424 : Int))]) = false :=
+  ⟨rfl, rfl⟩
+
+/-- **The behaviour before the fix (`pre = false`), kept as an explicit parameter of the model**:
+    one row with `2**70`, no threshold reached, `close()` raises `OverflowError`, the handler
+    swallows it, the run reports success and table `A` is empty (the D15 witness; the harness
+    replays it on the real code as a regression case). -/
+theorem close_reports_old_refuted :
     ∃ (ws : List (String × Int)) (s : Db Int),
-      runDb 1 1000 10000 tooBig ["A"] ws = .closeFailed s
-      ∧ reportsSuccess true (runDb 1 1000 10000 tooBig ["A"] ws) = true
+      runDb false 1 1000 10000 tooBig ["A"] ws = .closeFailed s
+      ∧ reportsSuccess true (runDb false 1 1000 10000 tooBig ["A"] ws) = true
       ∧ s.committed "A" = [] ∧ rowsOf "A" ws = [1180591620717411303424] :=
   ⟨[("A", 1180591620717411303424)], _, rfl, rfl, rfl, rfl⟩
 
-/-- **`close_reports_partial`.**  When every row can be bound by the database, the run reports
-    success *and* nothing is lost (any thresholds, any length). -/
-theorem close_reports_partial {ρ : Type} (swallow : Bool) (count0 fl cl : Nat) (bad : ρ → Bool)
+/-- When every row can be bound by the database, the run reports success *and* nothing is lost
+    (any thresholds, any length; with or without the commit of `generate`). -/
+theorem close_reports_good_rows {ρ : Type} (pre swallow : Bool) (count0 fl cl : Nat) (bad : ρ → Bool)
     (known : List String) (ws : List (String × ρ)) (hk : ∀ w ∈ ws, w.1 ∈ known)
     (hn : ∀ w ∈ ws, w.1 ≠ "") (hg : ∀ w ∈ ws, bad w.2 = false) :
-    reportsSuccess swallow (runDb count0 fl cl bad known ws) = true
-    ∧ ∃ s, (runDb count0 fl cl bad known ws).db? = some s ∧ ∀ T, s.committed T = rowsOf T ws := by
-  obtain ⟨s, hs, _, hl⟩ := buffer_lossless count0 fl cl bad known ws hk hn hg
+    reportsSuccess swallow (runDb pre count0 fl cl bad known ws) = true
+    ∧ ∃ s, (runDb pre count0 fl cl bad known ws).db? = some s ∧ ∀ T, s.committed T = rowsOf T ws := by
+  obtain ⟨s, hs, _, hl⟩ := buffer_lossless pre count0 fl cl bad known ws hk hn hg
   rw [hs]
   exact ⟨rfl, s, rfl, fun T => (hl T).1⟩
 
-/-- **What exactly is lost when `close()` fails**: the rows still in the buffer — all of them,
-    the bindable ones too — and the failure is caused by an unbindable row among them. -/
-theorem close_failure_loses_exactly_the_buffer {ρ : Type} (count0 fl cl : Nat) (bad : ρ → Bool)
+/-- **What a failing `close()` would lose** (any `pre`; with `pre = true` the hypothesis is
+    unsatisfiable by `close_never_fails`): the rows still in the buffer — all of them, the bindable
+    ones too — and the failure is caused by an unbindable row among them. -/
+theorem close_failure_loses_exactly_the_buffer {ρ : Type} (pre : Bool) (count0 fl cl : Nat) (bad : ρ → Bool)
     (known : List String) (ws : List (String × ρ)) (s : Db ρ)
-    (h : runDb count0 fl cl bad known ws = .closeFailed s) :
+    (h : runDb pre count0 fl cl bad known ws = .closeFailed s) :
     (∀ T, known.contains T = true → s.committed T ++ s.buffered T = rowsOf T ws)
     ∧ ∃ T ∈ known, ∃ r ∈ s.buffered T, bad r = true := by
   unfold runDb at h
@@ -166,37 +211,77 @@ theorem close_failure_loses_exactly_the_buffer {ρ : Type} (count0 fl cl : Nat) 
   · cases h
   · rename_i s0 e0
     split at h
-    · rename_i e1
-      cases h
-      have c0 := (Proofs.C08.conserve_writeAll ws _ s [] (Proofs.C08.conserve_init count0 known) e0).1
-      rw [List.nil_append] at c0
-      refine ⟨c0.kn, ?_⟩
-      unfold Db.commit at e1
-      split at e1
-      · unfold Db.flush at e1
-        split at e1
-        · rename_i hany
-          rw [List.any_eq_true] at hany
-          obtain ⟨T, hT, hb⟩ := hany
-          rw [List.any_eq_true] at hb
-          obtain ⟨r, hr, hbad⟩ := hb
-          rw [c0.known_eq] at hT
-          exact ⟨T, hT, r, hr, hbad⟩
-        · cases e1
-      · cases e1
     · cases h
+    · rename_i s1 e1
+      split at h
+      · rename_i e2
+        cases h
+        have c00 := (Proofs.C08.conserve_writeAll ws _ s0 [] (Proofs.C08.conserve_init count0 known) e0).1
+        rw [List.nil_append] at c00
+        have c0 := (Proofs.C08.conserve_preCommit c00 e1).1
+        refine ⟨c0.kn, ?_⟩
+        unfold Db.commit at e2
+        split at e2
+        · unfold Db.flush at e2
+          split at e2
+          · rename_i hany
+            rw [List.any_eq_true] at hany
+            obtain ⟨T, hT, hb⟩ := hany
+            rw [List.any_eq_true] at hb
+            obtain ⟨r, hr, hbad⟩ := hb
+            rw [c0.known_eq] at hT
+            exact ⟨T, hT, r, hr, hbad⟩
+          · cases e2
+        · cases e2
+      · cases h
 
-/-- **The repair is sufficient**: if the handler did *not* swallow (`swallow = false`), a run that
-    reports success has lost nothing — for every row predicate, i.e. also with unbindable rows. -/
-theorem success_without_swallow_is_lossless {ρ : Type} (count0 fl cl : Nat) (bad : ρ → Bool)
+/-- If the handler did *not* swallow (`swallow = false`), success ⇒ nothing lost already held
+    without the commit of `generate` (any `pre`). -/
+theorem success_without_swallow_is_lossless {ρ : Type} (pre : Bool) (count0 fl cl : Nat) (bad : ρ → Bool)
     (known : List String) (ws : List (String × ρ)) (hk : ∀ w ∈ ws, w.1 ∈ known)
     (hn : ∀ w ∈ ws, w.1 ≠ "")
-    (h : reportsSuccess false (runDb count0 fl cl bad known ws) = true) :
-    ∃ s, runDb count0 fl cl bad known ws = .closed s ∧ ∀ T, s.committed T = rowsOf T ws := by
-  cases hr : runDb count0 fl cl bad known ws with
+    (h : reportsSuccess false (runDb pre count0 fl cl bad known ws) = true) :
+    ∃ s, runDb pre count0 fl cl bad known ws = .closed s ∧ ∀ T, s.committed T = rowsOf T ws := by
+  cases hr : runDb pre count0 fl cl bad known ws with
   | writeFailed => rw [hr] at h; cases h
+  | commitFailed => rw [hr] at h; cases h
   | closeFailed s => rw [hr] at h; cases h
-  | closed s => exact ⟨s, rfl, fun T => (closed_lossless count0 fl cl bad known ws hk hn s hr T).1⟩
+  | closed s => exact ⟨s, rfl, fun T => (closed_lossless pre count0 fl cl bad known ws hk hn s hr T).1⟩
+
+/-! #### The SQL script: the dump is still written by `close()` -/
+
+/- FULL STATEMENT (false, residual of D15 — finding D15b):
+   theorem close_reports_script : reportsSuccess true (runScript true dumpOk …).1 = true →
+     ∃ s, (runScript true dumpOk …).2 = some s ∧ ∀ T, s.committed T = rowsOf T ws
+   `SqlTextOutputStream.close` writes the dump of the inner database into the text file; when that
+   write raises (a character the file's encoding cannot represent), `configure_output_stream` swallows
+   the exception: success is reported and the script holds no row, although every row was committed
+   to the inner database. -/
+
+/-- **D15b witness**: one bindable row, the dump cannot be written (`dumpOk = false`): the run
+    reports success, the inner database holds the row, the script holds nothing. -/
+theorem close_reports_script_refuted :
+    ∃ (ws : List (String × Int)) (s : Db Int),
+      runScript true false 1 1000 10000 tooBig ["A"] ws = (.closeFailed s, Option.none)
+      ∧ reportsSuccess true (runScript true false 1 1000 10000 tooBig ["A"] ws).1 = true
+      ∧ s.committed "A" = rowsOf "A" ws ∧ rowsOf "A" ws = [7] :=
+  ⟨[("A", 7)], _, rfl, rfl, rfl, rfl⟩
+
+/-- When the dump can be written, a SQL-script run that reports success holds every row. -/
+theorem close_reports_script_partial {ρ : Type} (swallow : Bool) (count0 fl cl : Nat) (bad : ρ → Bool)
+    (known : List String) (ws : List (String × ρ)) (hk : ∀ w ∈ ws, w.1 ∈ known)
+    (hn : ∀ w ∈ ws, w.1 ≠ "")
+    (h : reportsSuccess swallow (runScript true true count0 fl cl bad known ws).1 = true) :
+    ∃ s, (runScript true true count0 fl cl bad known ws).2 = some s
+      ∧ ∀ T, s.committed T = rowsOf T ws := by
+  unfold runScript at h ⊢
+  cases hr : runDb true count0 fl cl bad known ws with
+  | writeFailed => rw [hr] at h; cases h
+  | commitFailed => rw [hr] at h; cases h
+  | closeFailed s => exact absurd hr (close_never_fails count0 fl cl bad known ws s)
+  | closed s =>
+    simp only [if_true]
+    exact ⟨s, rfl, fun T => (closed_lossless true count0 fl cl bad known ws hk hn s hr T).1⟩
 
 /-! ### E — the encoder tables are total on the value universe -/
 
@@ -447,32 +532,44 @@ theorem mux_fanout {σ α ε : Type} (w : α → σ → Except ε σ) (as : List
       cases h with
       | cons h1 h2 => exact ⟨_, _, rfl, h1, (ih _).2 h2⟩
 
-/- FULL STATEMENT (false on the pinned commit, part of finding D15):
-   theorem mux_close_reaches_all : ∀ closeOk ss, none ∉ muxClose closeOk ss
-   `MultiplexOutputStream.close` stops at the first stream whose `close()` raises; the remaining
-   streams are never closed (a JSON file keeps no closing bracket, the CSV metadata file and the SQL
-   script are never written) while the run still reports success. -/
-
-theorem mux_close_reaches_all_refuted :
-    ∃ (closeOk : Bool → Bool) (ss : List Bool), Option.none ∈ muxClose closeOk ss :=
-  ⟨id, [false, true], by decide⟩
-
-theorem mux_close_reaches_all_partial {σ : Type} (closeOk : σ → Bool) (ss : List σ)
-    (h : ∀ s ∈ ss, closeOk s = true) : muxClose closeOk ss = ss.map (fun _ => some true) := by
+/-- **`mux_close_reaches_all`** (full strength since fix 043066e; refuted before it — part of D15):
+    `MultiplexOutputStream.close` reaches every stream, whichever closes raise — the result for
+    stream `i` is exactly whether its own close succeeded. -/
+theorem mux_close_reaches_all {σ : Type} (closeOk : σ → Bool) (ss : List σ) :
+    muxClose true closeOk ss = ss.map (fun s => some (closeOk s)) := by
   induction ss with
   | nil => rfl
   | cons s ss ih =>
-    simp only [muxClose, h s List.mem_cons_self, if_true, List.map_cons]
-    rw [ih (fun s' hs' => h s' (List.mem_cons_of_mem _ hs'))]
+    by_cases h : closeOk s = true
+    · simp only [muxClose, h, if_true, List.map_cons, ih]
+    · have h' : closeOk s = false := by simpa using h
+      simp only [muxClose, h', Bool.false_eq_true, if_false, if_true, List.map_cons, ih]
+
+theorem mux_close_none_unreached {σ : Type} (closeOk : σ → Bool) (ss : List σ) :
+    Option.none ∉ muxClose true closeOk ss := by
+  rw [mux_close_reaches_all]
+  simp
+
+/-- …and the error is not lost: `close` raises iff some stream's close raised. -/
+theorem mux_close_raises_iff {σ : Type} (closeOk : σ → Bool) (ss : List σ) :
+    muxCloseRaises closeOk ss = true ↔ some false ∈ muxClose true closeOk ss := by
+  rw [mux_close_reaches_all]
+  simp [muxCloseRaises]
+
+/-- The loop before the fix (`goOn = false`, explicit parameter): the first failing close leaves the
+    later streams unclosed. -/
+theorem mux_close_old_refuted :
+    ∃ (closeOk : Bool → Bool) (ss : List Bool), Option.none ∈ muxClose false closeOk ss :=
+  ⟨id, [false, true], by decide⟩
 
 /-! ### Non-vacuity -/
 
 /-- 2500 rows over two tables with thresholds 1000 / 10000: hypotheses of `buffer_lossless` hold. -/
-example : ∃ s, runDb 1 1000 10000 tooBig ["A", "B"]
+example : ∃ s, runDb true 1 1000 10000 tooBig ["A", "B"]
       ((List.range 2500).map (fun (n : Nat) => (if n % 3 = 0 then "B" else "A", (n : Int)))) = .closed s
     ∧ s.count = 1 + 2500 ∧ ∀ T, s.committed T = rowsOf T ((List.range 2500).map
         (fun (n : Nat) => (if n % 3 = 0 then "B" else "A", (n : Int)))) ∧ s.buffered T = [] := by
-  have := buffer_lossless (ρ := Int) 1 1000 10000 tooBig ["A", "B"]
+  have := buffer_lossless (ρ := Int) true 1 1000 10000 tooBig ["A", "B"]
     ((List.range 2500).map (fun (n : Nat) => (if n % 3 = 0 then "B" else "A", (n : Int))))
     (by intro w hw
         simp only [List.mem_map] at hw
